@@ -45,11 +45,12 @@ PROPS["C03"] = {
         Job("soyhtml", "H_decision", "0..1,0..1,0..8,1..4", workers=16),
         Job("soyhtml", "H_decision", "0..3,0..3,0..3,4..8", workers=16, note="cross-namespace and cross-file calls"),
         Job("soyhtml", "H_decision", "0..2,0..2,0..8,9", workers=16, note="translated message"),
+        Job("soyhtml", "H_decision", "0..3,0..3,0..3,10..11", workers=16, note="after calls into templates of another mode"),
         Job("soyhtml", "H_nonString", "0..4", workers=4),
         Job("soyhtml", "H_escape", "6", tier="thorough", workers=16),
-        Job("soyhtml", "H_decision", "0..3,0..3,0..8,1..9", tier="thorough", workers=16, note="all modes in all contexts"),
+        Job("soyhtml", "H_decision", "0..3,0..3,0..8,1..11", tier="thorough", workers=16, note="all modes in all contexts"),
     ],
-    "bounds_quick": "the HTML escaper (through an autoescaped print rendered by the public API) on all strings of <= 5 bytes (256 values each); evalPrint escape decision for $x = any 2 non-NUL bytes under 4x4 namespace/template autoescape attributes x 9 directive chains (direct print) and 2x2 modes x 9 chains in let-content, param-content, msg-placeholder and cross-namespace call contexts; cross-namespace calls from a caller whose template / namespace is autoescape=false / true into a callee with each of the 4x4 namespace/template attributes x 4 chains (the callee's own mode decides), also within one namespace spread over two files with different declarations, in both orders of addition; a print in a message rendered through an identity catalogue after a raw print of the same value (3x3 modes x 9 chains); non-string values",
+    "bounds_quick": "the HTML escaper (through an autoescaped print rendered by the public API) on all strings of <= 5 bytes (256 values each); evalPrint escape decision for $x = any 2 non-NUL bytes under 4x4 namespace/template autoescape attributes x 9 directive chains (direct print) and 2x2 modes x 9 chains in let-content, param-content, msg-placeholder and cross-namespace call contexts; cross-namespace calls from a caller whose template / namespace is autoescape=false / true into a callee with each of the 4x4 namespace/template attributes x 4 chains (the callee's own mode decides), also within one namespace spread over two files with different declarations, in both orders of addition; a print after calls (also inside a content block) into templates of the opposite / an explicit mode; a print in a message rendered through an identity catalogue after a raw print of the same value (3x3 modes x 9 chains); non-string values",
     "bounds_thorough": "escaper <= 6 bytes; all 16 mode pairs in every context",
     "outside": "strings longer than the bound; user-registered directives; changeNewlineToBr is checked under C16 (its regexp replacement through a validated Go model of the pattern); contextual escaping beyond what soy implements",
     "assumptions": ["decodeEntities (harness) is the reference decoder of the five character references"],
@@ -117,7 +118,7 @@ PROPS["C10"] = {
         Job("soymsg", "H_fp", "0..25", workers=8, qtimeout=3000, allow_inconclusive=True),
         Job("soymsg", "H_id", "0..4,0..2", workers=8, qtimeout=3000, allow_inconclusive=True),
         Job("soymsg", "H_idMeaning", "0..7,0..2", workers=8, qtimeout=3000, allow_inconclusive=True),
-        Job("soymsg", "H_names", "0..15,-1..3", workers=16),
+        Job("soymsg", "H_names", "0..16,-1..4", workers=16),
         Job(".", "H_compileRace", "0,0", workers=2, note="ids of two concurrent compilations"),
         Job(".", "H_compileRace", "0,7", workers=2, note="ids of two concurrent compilations"),
         Job("soymsg", "H_baseName", "1..6", workers=16, maxfan=16),
@@ -201,6 +202,7 @@ PROPS["C06"] = {
         Job(".", "H_globals", "0..28,false", workers=4),
         Job(".", "H_globalsSym", "0..23,0..2", workers=16, maxsteps=400000),
         Job("soyhtml", "H_staleTranslation", "0..3,0..2", workers=8, maxsteps=400000),
+        Job("soyhtml", "H_afterNotFound", "0..2", workers=4, maxsteps=400000),
     ],
     "bounds": "every built-in function (and an unknown one) with 0..3 arguments of any of 9 value kinds (third argument int/string/undefined), ints in [-4,4]; every binary operator on every operand kind pair; every built-in print directive (and an unknown one) with 0..2 arguments of any kind on a value of any kind (json only on concrete-shaped values); soyhtml.EvalExpr on every operator with an undefined/erroring/well-typed left operand; 12 failing commands at call depth 0..2 in a bundle with and without a second file that redefines the same template names; rendering 3 templates (message at top level, one call deep, plural) through catalogues whose entries do not fit the message (unknown placeholder, plural for a plain message, missing plural case, no parts); soy.ParseGlobals on 29 valid/erroring/malformed definitions (incl. truncated escapes and unterminated literals) and on 24 expression contexts followed by 0..2 symbolic bytes of any value (line breaks included); step bound 400000 as unwinding assertion",
     "outside": "user-registered functions and directives; data recursion deeper than 2; file-system loading",
@@ -265,8 +267,8 @@ PROPS["C13"] = {
         Job("soyjs", "H_jsAfterFailure", "0..2,0..2,true", workers=4, note="generation after a failed generation"),
         Job("soyjs", "H_jsOrder", "0..4,-1..3,false", workers=8, timeout=300),
         Job("soyjs", "H_jsOrder", "0..4,-1..3,true", workers=8, timeout=300),
-        Job(".", "H_bundle", "0..15,0", workers=8, timeout=400, per_map_site=r"^(ast|data|parse|parsepasses|soyhtml|soyjs|soymsg|template|bundle|globals)"),
-        Job(".", "H_bundle", "0..15,1..5", workers=8, timeout=400, note="file insertion orders"),
+        Job(".", "H_bundle", "0..16,0", workers=8, timeout=400, per_map_site=r"^(ast|data|parse|parsepasses|soyhtml|soyjs|soymsg|template|bundle|globals)"),
+        Job(".", "H_bundle", "0..16,1..5", workers=8, timeout=400, note="file insertion orders"),
     ],
     "bounds": "real soy.NewBundle().AddTemplateString(..).AddGlobalsMap(..).Compile() + Tofu rendering + soyjs.Write (ES5 and ES6) for 8 bundles, each compiled twice from the same Bundle object and a third time through CompileToTofu (valid with messages/globals/map literals/cross-file calls; rejected by the data-ref checker, the parser, the globals pass; two independent errors; duplicate template name; header params without soydoc); every map-range site reached in the soy packages is given an arbitrary iteration order, one site at a time (all permutations up to 5 keys; for larger maps an arbitrary key first and an arbitrary key last); all 6 insertion orders of up to 3 files",
     "outside": "two or more loops permuted simultaneously (order dependence that needs a particular combination); bundles outside the dictionary; file-system loading and the watcher",
@@ -286,8 +288,9 @@ PROPS["C17"] = {
         Job("parse", "H_roundStr", "0..2,1..4", workers=16),
         Job("parse", "H_roundOps", "0..16,0..16,0..2", workers=16),
         Job("parse", "H_roundPrint", "0..19,0..3", workers=8),
+        Job("parse", "H_roundPrintOps", "0..16,0..16,0..2", workers=16),
     ],
-    "bounds": "expression trees: every leaf kind (ints incl. negative and 2^53, floats incl. integral and exponent forms and 16 boundary magnitudes (2^63, 2^64, 1e15..1e22, 1e-7, max, min subnormal), bool, null, strings of 1 symbolic byte quoted by the real quoteString, data references with every access kind, globals, function calls, list and map literals, empty literals) alone and under negate/not/index/call/list/map/access-chain wrappers; every operator over every pair of 16 operand spellings (null-safe and plain accesses, calls, literals, signs, globals, $ij); flat chains of 150 operands under each binary operator and of 150 accesses; every operator inside each bracketing wrapper (with a symbolic string operand); string literals and map keys of any valid UTF-8 of <= 4 bytes; every operator (14 binary, 2 unary, ternary) over every operator in every operand position (depth 2); print commands with 0..2 directives with arguments",
+    "bounds": "expression trees: every leaf kind (ints incl. negative and 2^53, floats incl. integral and exponent forms and 16 boundary magnitudes (2^63, 2^64, 1e15..1e22, 1e-7, max, min subnormal), bool, null, strings of 1 symbolic byte quoted by the real quoteString, data references with every access kind, globals, function calls, list and map literals, empty literals) alone and under negate/not/index/call/list/map/access-chain wrappers; every operator over every pair of 16 operand spellings (null-safe and plain accesses, calls, literals, signs, globals, $ij); flat chains of 150 operands under each binary operator and of 150 accesses; every operator inside each bracketing wrapper (with a symbolic string operand); string literals and map keys of any valid UTF-8 of <= 4 bytes; every operator (14 binary, 2 unary, ternary) over every operator in every operand position (depth 2); print commands with 0..2 directives with arguments; print commands over every operator pair (they start with parentheses, signs, keywords)",
     "outside": "nesting depth > 2 of operators (parenthesisation is decided pairwise, so depth 2 covers each parent/child combination once); strings longer than 4 bytes",
     "assumptions": ["sameTree (harness): structural equality ignoring positions and the Quoted/Name presentation fields"],
     "level_text": "Bounded symbolic model checking over expression trees enumerated up to depth 2 with symbolic string bytes: print with the real String methods, parse with the real parser, compare structurally.",
@@ -356,11 +359,11 @@ PROPS["C14"] = {
         Job("soyjs", "H_jsLong", "0..5,5..6,0..5,0..3", tier="thorough", workers=16, maxsteps=3000000, note="longer text"),
         Job("soyjs", "H_jsLiteralIn", "0..15,0..2", workers=8),
         Job("soyjs", "H_jsSource", "0..3", workers=16),
-        Job("soyjs", "H_jsStruct", "0..3,false", workers=4),
-        Job("soyjs", "H_jsStruct", "0..3,true", workers=4),
+        Job("soyjs", "H_jsStruct", "0..5,false", workers=4),
+        Job("soyjs", "H_jsStruct", "0..5,true", workers=4),
         Job("soyjs", "H_jsLiteral", "0..5,3,0", tier="thorough", workers=16),
     ],
-    "bounds_quick": "string emission at 6 sites (raw text, string literal, map literal key, css suffix, global string value, message text) with <= 2 symbolic ASCII bytes (all 128 values incl. quotes, backslash, controls, line terminators), and <= 1 byte combined with U+00E9, U+2028, U+2029, U+1F600 or the text </script>: the emitted token is one well-formed, script-safe literal (for appended text: one or several append statements, each literal valid UTF-8) that decodes to the original characters; the same literal at 16 positions of commands (print, call param values with and without data=all, let, if, switch case, function and directive arguments, index, loop list, ?: and ternary operands, call data map, message placeholder, css, log) is emitted as the same token; a literal of <= 3 symbolic characters spelled in template source (with the language's escapes) through the real parser and the generator; long text: a padding that places a 2-, 3- or 4-byte character (U+00E9, U+20AC, U+2028, U+1F600) across or next to every power-of-two offset 64..1024 (thorough: ..4096) followed by a symbolic byte, at each site; structure of the generated files for 4 bundles (incl. namespaces with repeated segments) x 2 formatters (every prefix of the namespace declared outermost first before the functions, one function per template under its qualified/exported name, balanced brackets outside literals, identifier-shaped variable names)",
+    "bounds_quick": "string emission at 6 sites (raw text, string literal, map literal key, css suffix, global string value, message text) with <= 2 symbolic ASCII bytes (all 128 values incl. quotes, backslash, controls, line terminators), and <= 1 byte combined with U+00E9, U+2028, U+2029, U+1F600 or the text </script>: the emitted token is one well-formed, script-safe literal (for appended text: one or several append statements, each literal valid UTF-8) that decodes to the original characters; the same literal at 16 positions of commands (print, call param values with and without data=all, let, if, switch case, function and directive arguments, index, loop list, ?: and ternary operands, call data map, message placeholder, css, log) is emitted as the same token; a literal of <= 3 symbolic characters spelled in template source (with the language's escapes) through the real parser and the generator; long text: a padding that places a 2-, 3- or 4-byte character (U+00E9, U+20AC, U+2028, U+1F600) across or next to every power-of-two offset 64..1024 (thorough: ..4096) followed by a symbolic byte, at each site; structure of the generated files for 6 bundles (incl. control flow with empty branches and bodies; every else follows a closing brace) (incl. namespaces with repeated segments) x 2 formatters (every prefix of the namespace declared outermost first before the functions, one function per template under its qualified/exported name, balanced brackets outside literals, identifier-shaped variable names)",
     "bounds_thorough": "3 symbolic bytes per site",
     "outside": "full-script syntactic validity: needs a JavaScript parser inside the solver loop, which is not available; only literal tokens and the bracket/definition structure are decided. Whole-template generation with symbolic text through the parser.",
     "assumptions": ["refJSLiteral (harness): reference decoder of ECMAScript string literal bodies"],
@@ -398,7 +401,7 @@ PROPS["C07"] = {
         Job("soyhtml", "H_datarefsBind", "2,4,false,false", tier="thorough", workers=16, timeout=3000),
         Job("soyhtml", "H_datarefsBind", "2,4,true,false", tier="thorough", workers=16, timeout=3000),
         Job("soyhtml", "H_bothParamStyles", "0..2", workers=2),
-        Job(".", "H_recompile", "0..13", workers=4),
+        Job(".", "H_recompile", "0..15", workers=4),
         Job("soyhtml", "H_datarefs", "1,2,false,true", tier="thorough", workers=16, timeout=3000),
         Job("soyhtml", "H_datarefsLate", "1,2,2", tier="thorough", workers=16, timeout=3000),
         Job("soyhtml", "H_datarefs", "2,2,true,false", tier="thorough", workers=16, timeout=3000),
@@ -415,14 +418,14 @@ PROPS["C07"] = {
 # ---------------------------------------------------------------- C11
 PROPS["C11"] = {
     "jobs": [
-        Job("soymsg/pomsg", "H_roundtrip", "0..9,0..3,0..2", workers=16, timeout=900),
+        Job("soymsg/pomsg", "H_roundtrip", "0..10,0..3,0..2", workers=16, timeout=900),
         Job("soymsg/pomsg", "H_plural", "1..3", workers=8, timeout=600),
         Job("soymsg/pomsg", "H_pluralCases", "0..4", workers=8, timeout=600),
         Job("soymsg/pomsg", "H_catalogue", "0..3", workers=8, timeout=600),
         Job("soymsg/pomsg", "H_sameID", "0..2", workers=8, timeout=600),
         Job("soymsg/pomsg", "H_distinctIDs", "1..37", workers=8, timeout=600),
     ],
-    "bounds": "10 messages (one directive with different arguments; literal braces next to placeholders; text only; text + placeholders; repeated equal expressions; html tags; two expressions that differ only in parenthesisation; colliding placeholder base names; one expression printed with different directives; two link tags with different attributes) in 4 contexts (plain, inside a foreach, inside the content block of a call param, inside a called template) x 3 catalogues built with the real extraction functions (pomsg.Validate/Msgid/MsgidPlural -> newMessage -> soymsg.Parts): identity, parts reversed, message absent; data: symbolic int in [0,2] and a symbolic byte from {a,b,c,<}; pairs of messages that share an id (same text and placeholder names, different expressions) in one template; a three-message bundle (plural + two plain) loaded through the real newBundle from PO entries in 4 orders; plural message with {case 1}+{default} under catalogues with 1, 2 and 3 plural forms where the bundle's PluralCase returns an arbitrary index below the number of forms, or the English rule",
+    "bounds": "11 messages (tags whose names contain - : _; one directive with different arguments; literal braces next to placeholders; text only; text + placeholders; repeated equal expressions; html tags; two expressions that differ only in parenthesisation; colliding placeholder base names; one expression printed with different directives; two link tags with different attributes) in 4 contexts (plain, inside a foreach, inside the content block of a call param, inside a called template) x 3 catalogues built with the real extraction functions (pomsg.Validate/Msgid/MsgidPlural -> newMessage -> soymsg.Parts): identity, parts reversed, message absent; data: symbolic int in [0,2] and a symbolic byte from {a,b,c,<}; pairs of messages that share an id (same text and placeholder names, different expressions) in one template; a three-message bundle (plural + two plain) loaded through the real newBundle from PO entries in 4 orders; plural message with {case 1}+{default} under catalogues with 1, 2 and 3 plural forms where the bundle's PluralCase returns an arbitrary index below the number of forms, or the English rule",
     "outside": "PO text syntax and file loading (robfig/gettext/po), locale fallback (x/text/language), the xgettext-soy main wrapper (its extract function is three calls which the harness mirrors), the JavaScript backend (no JS semantics in the engine); messages outside the dictionary; soymsg.Parts runs its regexp natively on concrete text",
     "assumptions": ["the expected value of a placeholder is what the real renderer prints for a template consisting of that expression alone (the evaluator itself is checked under C01)"],
     "level_text": "Bounded symbolic model checking of the extraction -> catalogue -> render pipeline for a message dictionary with symbolic data and a symbolic plural-form index: translated output is compared with the composition of the parts' own renderings.",
